@@ -42,6 +42,17 @@ def exc_is(cls, handler):
     return False
 
 
+def term_size(t, cap):
+    n = 0
+    stack = [t]
+    while stack and n < cap:
+        x = stack.pop()
+        n += 1
+        if z3.is_app(x):
+            stack.extend(x.children())
+    return n
+
+
 class Raise(Exception):
     """unconditional raise during expression evaluation"""
 
@@ -80,11 +91,13 @@ class Interp:
         self.obls = []
         self.cur_func = '?'
         self.cur_inputs = None
+        self.cur_opaque = ()
         self.inlined = set()
         self.used_contracts = set()
         self.used_lemmas = set()
         self.assumed = set()
         self.max_unroll = 4096
+        self.naming = False
         self.bounded_k = None                 # bounded stand-in mode: unroll symbolic loops at most k times
         self.bounded_cut = 0
         self.depth = 0
@@ -107,6 +120,8 @@ class Interp:
         extra = dict(extra or {})
         if self.cur_inputs is not None:
             extra.setdefault('inputs', self.cur_inputs)
+        if self.cur_opaque:
+            extra.setdefault('opaque', self.cur_opaque)
         o = Obligation(name, kind, st.pc, goal, self.cur_func, line, clause, top, extra)
         self.obls.append(o)
         return o
@@ -669,8 +684,21 @@ class Interp:
         return cut_loop(self, stmt, st, spec, kind, it)
 
     # ================================================================================================ assignment
+    def name_value(self, name, v, st):
+        """give a large symbolic value a name (fresh constant + defining equation): keeps later terms small"""
+        if isinstance(v, Sym) and v.ty in ('int', 'str', 'bytes') and self.naming and not z3.is_const(v.t):
+            if term_size(v.t, 12) >= 12:
+                nv = fresh(name, v.ty)
+                st.pc.append(nv.t == v.t)
+                if v.ty == 'int' and ops.nonneg(v.t, st):
+                    st.pc.append(nv.t >= 0)
+                return nv
+        return v
+
     def assign(self, tgt, v, st):
         if isinstance(tgt, ast.Name):
+            if st.frame['$meta'].get('module') != '$spec':
+                v = self.name_value(tgt.id, v, st)
             st.frame[tgt.id] = v
         elif isinstance(tgt, (ast.Tuple, ast.List)):
             vals = ops.unpack(self, st, v, len(tgt.elts))
@@ -962,9 +990,15 @@ class Interp:
             sb.pc.append(z3.Not(c))
             va = self.eval(e.body, sa)
             vb = self.eval(e.orelse, sb)
-            if not sa.pend and not sb.pend and not sa.alts and not sb.alts and len(sa.pc) == len(st.pc) + 1 \
-                    and len(sb.pc) == len(st.pc) + 1 and sa.heap == st.heap and sb.heap == st.heap:
-                return merge_value(c, va, vb, sa, sb, st)
+            if not sa.pend and not sb.pend and not sa.alts and not sb.alts and sa.heap == st.heap and sb.heap == st.heap:
+                n = len(st.pc)
+                r = merge_value(c, va, vb, sa, sb, st)
+                # facts recorded while evaluating an arm hold under that arm's condition
+                for f in sa.pc[n + 1:]:
+                    st.pc.append(z3.Implies(c, f))
+                for f in sb.pc[n + 1:]:
+                    st.pc.append(z3.Implies(z3.Not(c), f))
+                return r
         except (MergeFail, Raise):
             pass
         if self.branch(st, c):
@@ -991,17 +1025,22 @@ class Interp:
         s2.pc.append(t if is_and else z3.Not(t))
         try:
             rest = self._boolop(exprs[1:], is_and, s2)
-            pure = not s2.pend and not s2.alts and len(s2.pc) == len(st.pc) + 1 and s2.heap == st.heap
+            pure = not s2.pend and not s2.alts and s2.heap == st.heap
             if pure:
+                n = len(st.pc)
+                guard = t if is_and else z3.Not(t)
                 tv = type_of(v, st)
                 tr = type_of(rest, s2)
                 if tv == 'bool' and tr == 'bool':
                     rt = self._z(self.truth(rest, s2))
-                    return mk(z3.And(t, rt) if is_and else z3.Or(t, rt), 'bool')
-                # value-level semantics: (v if falsy else rest) for and
-                if is_and:
-                    return merge_value(t, rest, v, s2, st, st)
-                return merge_value(t, v, rest, st, s2, st)
+                    res = mk(z3.And(t, rt) if is_and else z3.Or(t, rt), 'bool')
+                elif is_and:
+                    res = merge_value(t, rest, v, s2, st, st)
+                else:
+                    res = merge_value(t, v, rest, st, s2, st)
+                for f in s2.pc[n + 1:]:
+                    st.pc.append(z3.Implies(guard, f))
+                return res
         except (MergeFail, Raise):
             pass
         if self.branch(st, t):
